@@ -2662,8 +2662,6 @@ impl<'a> Socket<'a> {
                     repr.seq_number = self.local_seq_no;
                     repr.payload = self.tx_buffer.get_allocated(0, size);
 
-                    self.pending_fast_retransmit = false;
-
                     0
                 } else {
                     // Right edge of window, ie the max sequence number we're allowed to send.
@@ -2778,6 +2776,10 @@ impl<'a> Socket<'a> {
         // for sure will not be successfully transmitted.
         ip_repr.set_payload_len(repr.buffer_len());
         emit(cx, (ip_repr, repr))?;
+
+        // The fast retransmit is only done once the segment was handed to the device; if the
+        // device was exhausted it stays pending and is retried on the next poll.
+        self.pending_fast_retransmit = false;
 
         // We've sent something, whether useful data or a keep-alive packet, so rewind
         // the keep-alive timer.
